@@ -215,8 +215,8 @@ class Run:
             return
         missing = sorted(set(base) - set(names))
         if missing:
-            self.errors.append("obligations present in baseline but not generated (anchor mismatch / vacuity): %s"
-                               % ", ".join(missing[:8]) + (" ... (%d)" % len(missing) if len(missing) > 8 else ""))
+            self.error("obligations present in baseline but not generated (anchor mismatch / vacuity): %s"
+                       % ", ".join(missing[:8]) + (" ... (%d)" % len(missing) if len(missing) > 8 else ""))
 
     def _write_evidence(self, violations, known_hits, unknowns):
         obs = self.obligations
@@ -285,6 +285,7 @@ def _stable_name(n):
     if n.startswith("order-independence."):
         return re.sub(r"#\d+\[.*$", "", n)
     n = re.sub(r"\[.*\]\.", ".", n)
+    n = re.sub(r"\[[^\[\]]*\]$", "", n)   # trailing [scope / count] label
     # E2 wrapper names: drop the configuration (width/container/order/backing/enum type) and counts
     n = re.sub(r"^((?:read|write)_[a-z]+)_[A-Za-z0-9]+_w\d+_c\d+_[A-Za-z]+_[a-z]+\.", r"\1.", n)
     n = re.sub(r"^(write_bcdwide)_w\d+_c\d+_[A-Za-z]+_[a-z]+\.", r"\1.", n)
